@@ -341,10 +341,11 @@ def calibration_single_ended_solver(  # noqa: MC0001
             transient_m_data = np.zeros((nm, nta))
             for ii, row in enumerate(matching_indices):
                 for jj, transient_att_xi in enumerate(trans_att):
-                    transient_m_data[ii, jj] = np.logical_and(
-                        transient_att_xi > x_all[row[0]],
-                        transient_att_xi < x_all[row[1]],
-                    ).astype(int)
+                    # I_0 - I_1 = dalpha * (x_1 - x_0) + TA(x_1) - TA(x_0), where
+                    # the splice loss applies to all x >= transient_att_xi
+                    transient_m_data[ii, jj] = int(
+                        x_all[row[1]] >= transient_att_xi
+                    ) - int(x_all[row[0]] >= transient_att_xi)
 
             data_mt = np.tile(transient_m_data, (nt, 1)).flatten("F")
 
